@@ -65,7 +65,12 @@ P("C08",
   technique="model-based + metamorphic PBT: confusable scope alphabet, all statement permutations, generated references; exact-membership model; mutation-isolation (private copy) oracle via deep snapshots",
   level_text="Exploration (cheap, very many cases): selection compared with an exact-membership model on generated valid documents and references, permutation invariance, and deep-mutation of every returned statement followed by snapshot comparison.",
   level_note="Repository paths are known well-formed by construction; trusts reflect.DeepEqual for snapshots.",
-  health={"hit=exact": 100, "hit=wildcard": 100, "hit=none": 100, "ref=nearmiss": 100, "blob": 100, "privacy-mutation": 100})
+  health={"hit=exact": 100, "hit=wildcard": 100, "hit=none": 100, "ref=nearmiss": 100, "ref=variant": 100, "ref=shape": 100,
+          "blob": 100, "blobhit=exact": 100, "blobhit=global": 100, "blobhit=none": 100, "name=nearmiss": 100,
+          "privacy-mutation": 100, "privacy=oci": 50, "privacy=blob": 50, "privacy=global": 50,
+          "place=override-map/add-key": 50, "place=override-map/change-values": 50, "place=registryScopes/elements": 50,
+          "place=trustStores/append": 50, "place=trustedIdentities/elements": 50,
+          "via=verifier": 100, "via=verify": 50, "via=skipverify": 50, "via=verifyblob": 50, "verify=ok": 50, "verifier:refused": 50})
 
 P("C09",
   technique="grammar-based PBT with rule-violation operators: valid documents from a grammar + 0..2 labelled violating edits; accept iff zero edits (validity known by construction); native fuzz over policy JSON in thorough",
@@ -137,7 +142,12 @@ P("C17",
   level_text="Exploration over generated plugin behaviours with real processes; output cap judged by allocation accounting and by the impossibility of over-cap successes; time bound with a margin (10 s) far from the descendants' 40 s sleep.",
   level_note="The numeric time bound and allocation threshold are the harness's choices (the statement says 'bounded'); arbitrary plugin behaviour is sampled from the listed classes.",
   helpers=["fakeplugin"],
-  health={"cmd=get-plugin-metadata": 20, "exit!=0": 20, "stdout=overcap": 1, "timing=descendant": 1, "timing=slow": 1},
+  health={"cmd=get-plugin-metadata": 20, "cmd=describe-key": 10, "cmd=generate-signature": 10, "cmd=generate-envelope": 10, "cmd=verify-signature": 10,
+          "exit=0": 20, "exit!=0": 20, "exit=killed": 5, "outcome=success": 20, "outcome=error": 20,
+          "stdout=valid": 20, "stdout=nonjson": 5, "stdout=empty": 5, "stdout=fieldtype": 5, "stdout=wrongname": 2, "stdout=badversion": 2,
+          "stdout=missing-name": 2, "stdout=empty-url": 2, "stdout=missing-supportedContractVersions": 2, "stdout=empty-capabilities": 2,
+          "stderr=structured": 20, "stderr=nonjson": 10, "stderr=empty": 10, "errcode=THROTTLED": 2,
+          "stdout=overcap": 1, "stderr=overcap": 1, "timing=descendant": 1, "timing=slow": 1, "timing=cancel": 1, "timing=nodeadline": 1},
   timeout={"quick": 900, "thorough": 5400})
 
 P("C18",
@@ -160,7 +170,14 @@ P("C19",
   technique="stateful model-based PBT (rapid state machine of pushes / foreign and hostile referrers / reopen / list / fetch) over an on-disk OCI layout and an in-memory store; multiset model of signatures per subject",
   level_text="Exploration over push histories: listing and fetching compared with a model multiset per subject; hostile referrers must be refused before their content is read (blob-fetch log).",
   level_note="One oci.Store instance per session (oras behaviour); trusts oras-go's store for the non-notation parts.",
-  health={"op=push-signature": 100, "op=push-foreign": 30, "op=push-hostile": 30, "op=list": 100, "op=fetch": 100, "subjects>=2": 30, "op=reopen": 10})
+  health={"store=disk": 100, "store=memory": 100, "subjects>=2": 100, "subjects-same-content": 50, "reopened": 20,
+          "op=push-signature": 500, "op=push-foreign": 300, "op=push-hostile": 300, "op=list": 1000, "op=fetch": 1000, "op=fetch:kept": 100,
+          "op=fetch-hostile": 300, "op=reopen": 50, "env=1B": 20, "env=256KiB": 20,
+          "op=push-foreign:other-type": 30, "op=push-foreign:legacy-other-type": 30, "op=push-foreign:legacy-notation": 30,
+          "op=push-foreign:layer-ref-no-subject": 30, "op=push-foreign:layer-ref-other-subject": 15, "op=push-foreign:subject-off-digest": 30,
+          "op=push-foreign:subject-off-size": 30, "op=push-foreign:subject-off-mediatype": 30,
+          "op=push-hostile:zero-layers": 50, "op=push-hostile:two-layers": 50, "op=push-hostile:oversize-blob": 50,
+          "op=push-hostile:oversize-manifest": 10, "op=push-signature:at-manifest-cap": 5, "list-refused:oversize-manifest": 10})
 
 P("C20",
   technique="stateful model-based PBT (rapid state machine Install/Uninstall/Get/List) over a real plugin root with generated script plugins; own semver-precedence implementation; tree-snapshot oracle and metamorphic source-shape relations",
